@@ -79,11 +79,12 @@ type op struct {
 }
 
 type caseA struct {
-	NoOTmp   bool  `json:"no_otmpfile"`
-	Procs    int   `json:"procs"`   // gateway instances sharing the storage (1 or 2)
-	Initial  int   `json:"initial"` // 0: key absent, else the write present before the race
-	Ops      []op  `json:"ops"`
-	Schedule []int `json:"schedule"`
+	NoOTmp    bool  `json:"no_otmpfile"`
+	Versioned bool  `json:"versioned,omitempty"` // gateways with a versions store, bucket versioning enabled
+	Procs     int   `json:"procs"`               // gateway instances sharing the storage (1 or 2)
+	Initial   int   `json:"initial"`             // 0: key absent, else the write present before the race
+	Ops       []op  `json:"ops"`
+	Schedule  []int `json:"schedule"`
 	// Stall[i] = n > 0: operation i, once it has been released StallAt[i] times, stays parked while any other move is
 	// possible and fewer than n moves were made (a request that pauses at one point while others run to completion)
 	Stall   []int `json:"stall,omitempty"`
@@ -223,18 +224,18 @@ var (
 	insts = map[string]*gw.InProc{}
 )
 
-func inst(noOTmp bool, proc int) (*gw.InProc, error) {
+func inst(noOTmp, versioned bool, proc int) (*gw.InProc, error) {
 	if sb == nil {
 		var err error
 		if sb, err = gw.NewSandbox("c05"); err != nil {
 			return nil, err
 		}
 	}
-	k := fmt.Sprint(noOTmp, proc)
+	k := fmt.Sprint(noOTmp, versioned, proc)
 	if g, ok := insts[k]; ok {
 		return g, nil
 	}
-	g, err := gw.StartInProc(gw.Config{SB: sb, NoOTmp: noOTmp})
+	g, err := gw.StartInProc(gw.Config{SB: sb, NoOTmp: noOTmp, Versioning: versioned})
 	if err != nil {
 		return nil, err
 	}
@@ -304,7 +305,7 @@ func execA(c caseA) (hist []histOp, overlap bool, err error) {
 	}
 	var cls []*s3c.Client
 	for p := 0; p < c.Procs; p++ {
-		g, err := inst(c.NoOTmp, p)
+		g, err := inst(c.NoOTmp, c.Versioned, p)
 		if err != nil {
 			return nil, false, fmt.Errorf("SETUP: %v", err)
 		}
@@ -315,6 +316,11 @@ func execA(c caseA) (hist []histOp, overlap bool, err error) {
 	verifhook.SetHandler(nil)
 	if r, err := cls[0].Call("PUT", "/"+bkt, nil, nil, nil); err != nil || !r.OK() {
 		return nil, false, fmt.Errorf("SETUP: create bucket: %v %v", r, err)
+	}
+	if c.Versioned {
+		if r, err := cls[0].Call("PUT", "/"+bkt, s3c.Q("versioning", ""), nil, []byte("<VersioningConfiguration><Status>Enabled</Status></VersioningConfiguration>")); err != nil || !r.OK() {
+			return nil, false, fmt.Errorf("SETUP: enable versioning: %v %v", r, err)
+		}
 	}
 	// copy sources and the initial object
 	for _, o := range c.Ops {
@@ -439,6 +445,7 @@ func caseGen() *rapid.Generator[caseA] {
 		var c caseA
 		c.NoOTmp = rapid.Bool().Draw(t, "no_otmpfile")
 		c.Procs = rapid.IntRange(1, 2).Draw(t, "procs")
+		c.Versioned = rapid.IntRange(0, 3).Draw(t, "versioned") == 0
 		c.Initial = rapid.SampledFrom([]int{0, 1, 1, 1, 4}).Draw(t, "initial")
 		n := rapid.IntRange(2, 4).Draw(t, "nops")
 		avail := []int{2, 3, 4}
@@ -470,10 +477,12 @@ func caseGen() *rapid.Generator[caseA] {
 		if rapid.IntRange(0, 2).Draw(t, "stalling") == 0 {
 			// one operation (mostly a reader) pauses after some of its steps until the others are through
 			i := rapid.IntRange(0, n-1).Draw(t, "stall_op")
-			for j, o := range c.Ops {
-				if (o.Kind == "get" || o.Kind == "getsum" || o.Kind == "head") && rapid.Bool().Draw(t, "stall_reader") {
-					i = j
-					break
+			if rapid.Bool().Draw(t, "stall_a_reader") {
+				for j, o := range c.Ops {
+					if (o.Kind == "get" || o.Kind == "getsum" || o.Kind == "head") && rapid.Bool().Draw(t, "stall_reader") {
+						i = j
+						break
+					}
 				}
 			}
 			c.Stall, c.StallAt = make([]int, n), make([]int, n)
